@@ -50,7 +50,7 @@ static ESmry* mksmry(bool formatted, const char* datafile, const std::vector<std
 }
 static int pick_pos() {      // positions around the record-block boundaries and the ends
     static const int cand[] = { 0, 1, 3, 4, 999, 1000, 1001, 1999, 2000, 2001, NVECT - 2, NVECT - 1 };
-    unsigned long k = verif_concretize(nondet_ulong(), 11); return cand[k] < NVECT ? cand[k] : NVECT - 1;
+    unsigned long k = verif_concretize(nondet_ulong(), 11); return cand[k] < 0 ? 0 : cand[k] < NVECT ? cand[k] : NVECT - 1;
 }
 extern "C" void h_binary(void) {
     const int p = pick_pos();
